@@ -87,10 +87,11 @@ func runC17(r *Run, p *Prog) {
 			r.Ob("D1", fn, "before the helper starts, the "+op.IODir+" deadline is set to the context's deadline on every path (unconditionally)", op.Go.Pos(), ok,
 				"the helper can be started without Set"+strings.Title(op.IODir)+"Deadline(ctx deadline): a context deadline is not honoured, and a deadline armed by an earlier operation stays in force for this one", witnessPos(p, w)...)
 			// no way through the operation avoids the arming call (e.g. a fast path doing the I/O directly)
-			ok2, w2 := everyPathPasses(op.Fn, nil, isReturn,
+			// (a path that returns without touching the wrapped connection or its reader needs no deadline)
+			ok2, w2 := everyPathPasses(op.Fn, nil, func(in ssa.Instruction) bool { return wrapperIO(T, op.Fn, in) },
 				func(in ssa.Instruction) bool { return isSetter(in, func(a string) bool { return a == dlT }) })
-			r.Ob("D1", fn, "every path through the operation first sets the "+op.IODir+" deadline to the context's deadline", op.Fn.Pos(), ok2,
-				"the operation can complete without calling Set"+strings.Title(op.IODir)+"Deadline(ctx deadline): a deadline left armed by an earlier operation with a deadline context is then still in force and makes this one fail with a timeout although its own context is live", witnessPos(p, w2)...)
+			r.Ob("D1", fn, "every path to I/O on the wrapped connection first sets the "+op.IODir+" deadline to the context's deadline", op.Fn.Pos(), ok2,
+				"the operation can perform I/O on the connection (outside the helper) without calling Set"+strings.Title(op.IODir)+"Deadline(ctx deadline): it is not governed by the context, and a deadline left armed by an earlier operation with a deadline context is then still in force and makes this one fail with a timeout although its own context is live", witnessPos(p, w2)...)
 			// no deadline setter of the wrong kind
 			for _, b := range op.Fn.Blocks {
 				for _, in := range b.Instrs {
@@ -648,6 +649,12 @@ func connCtxCancelOnExit(p *Prog, T *Terms, cg *CallGraph, loopFn *ssa.Function,
 					}
 				}
 			}
+			// cancelling a parent cancels the child: the context this one is derived from may be the one cancelled on exit
+			if len(c.Call.Args) > 0 {
+				if ok2, w := check(f, c.Call.Args[0], before, depth+1); ok2 {
+					return true, w + " (parent of the " + calleeName(&c.Call) + " context used for the read)"
+				}
+			}
 			return false, "the cancel function of the derived context is not deferred before the connection is served"
 		case *ssa.Parameter:
 			idx := -1
@@ -680,4 +687,40 @@ func connCtxCancelOnExit(p *Prog, T *Terms, cg *CallGraph, loopFn *ssa.Function,
 		return false, "the read context is " + strip(T.T(v))
 	}
 	return check(loopFn, ctxArg, rb, 0)
+}
+
+// wrapperIO: in is a call, in the operation itself (not in its helper), of a method of a member of the wrapper (the
+// connection or its buffered reader) that can touch the socket. Accessors that cannot block are exempt, and so are
+// Peek/Discard of no more than what is buffered (Peek(r.Buffered()), Discard(len(<that Peek>))).
+func wrapperIO(T *Terms, fn *ssa.Function, in ssa.Instruction) bool {
+	c, ok := in.(*ssa.Call)
+	if !ok || len(fn.Params) == 0 {
+		return false
+	}
+	cs := CallSite{Instr: c, Common: &c.Call, Fn: fn}
+	rv := recvOf(cs)
+	if rv == nil {
+		return false
+	}
+	rt := strip(T.T(rv))
+	pre := "param:" + fn.Params[0].Name() + "."
+	if !strings.HasPrefix(rt, pre) && !strings.HasPrefix(rt, "&"+pre) {
+		return false
+	}
+	name := cs.Name()
+	if i := strings.LastIndex(name, "."); i >= 0 {
+		name = name[i+1:]
+	}
+	name = strings.TrimPrefix(name, "invoke:")
+	switch name {
+	case "Buffered", "Size", "Available", "LocalAddr", "RemoteAddr", "SetDeadline", "SetReadDeadline", "SetWriteDeadline":
+		return false
+	case "Peek", "Discard":
+		a := strip(T.T(c.Call.Args[len(c.Call.Args)-1]))
+		buffered := "call:bufio.Reader.Buffered(" + rt + ")"
+		if a == buffered || a == "call:len(ext(call:bufio.Reader.Peek("+rt+","+buffered+"),0))" {
+			return false
+		}
+	}
+	return true
 }
